@@ -223,26 +223,27 @@ func (r *RibTable) RemoveRouteEnc(name enc.Name, faceID uint64, origin uint64) {
 
 // CleanUpFace removes the specified face from all entries. Used for clean-up after a face is destroyed.
 func (r *RibEntry) CleanUpFace(faceId uint64) {
+	// Remove all routes of the face (there may be one per origin) from this
+	// entry first, so that children no longer inherit them when they update
+	kept := make([]*Route, 0, len(r.routes))
+	for _, route := range r.routes {
+		if route.FaceID == faceId {
+			readvertiseWithdraw(r.Name, route)
+		} else {
+			kept = append(kept, route)
+		}
+	}
+	removed := len(kept) != len(r.routes)
+	r.routes = kept
+
 	// Recursively clean children
 	for child := range r.children {
 		child.CleanUpFace(faceId)
 	}
 
-	if r.Name == nil {
-		return
+	if removed {
+		r.updateNexthopsEnc()
 	}
-
-	for i, route := range r.routes {
-		if route.FaceID == faceId {
-			if i < len(r.routes)-1 {
-				copy(r.routes[i:], r.routes[i+1:])
-			}
-			r.routes = r.routes[:len(r.routes)-1]
-			readvertiseWithdraw(r.Name, route)
-			break
-		}
-	}
-	r.updateNexthopsEnc()
 	r.pruneIfEmpty()
 }
 
